@@ -540,6 +540,16 @@ def run(rep):
     pv.run_contract(c16_enum.EnumerateGates())
     it.contracts.clear()
     it.loop_specs.clear()
+    from . import c16_body
+    pv.run_contract(c16_body.EncodeBody())
+    it.contracts.clear()
+    it.loop_specs.clear()
+    pv.run_contract(c16_body.DecodeBody())
+    it.contracts.clear()
+    it.loop_specs.clear()
+    rt_hyps = c16_body.circuit_round_trip(pv)
+    from ..pyvc import solve as _solve
+    pv.guards.append(('C16/circuit-round-trip/vacuity-guard', _solve.to_smt2(list(rt_hyps), z3.BoolVal(False)), False, 'guard'))       # contradictory hypotheses would prove everything
     x = z3.Int('x')
     canary(rep, pv, 'C16/canary/bit7-is-bit0', [x >= 0, x < 256], bitof(x, z3.IntVal(7)) == bitof(x, z3.IntVal(0)))
     refuted = pv.discharge(env.NPROC)
